@@ -57,11 +57,15 @@ class System:
     """One client application (SimSpaMan) and one spa peer on SimNet, with recorders armed."""
 
     def __init__(self, world, snapshot: Optional[str] = None, model: bool = True, man_kwargs: Optional[Dict[str, str]] = None,
-                 record_queues: bool = True, record_calls: bool = True, record_installs: bool = True):
+                 record_queues: bool = True, record_calls: bool = True, record_installs: bool = True,
+                 spa_ip: Optional[str] = None, client_uuid: Optional[str] = None, exclusive: bool = False):
+        """spa_ip / client_uuid / exclusive: a second client-and-spa pair in the same process (exclusive = only endpoints opened by this
+        manager's own tasks are attributed to this fixture)."""
         self.world = world
+        self.exclusive = exclusive
         snap = snapshot or world.cfg.get("snapshot", "default.snapshot")
         self.snap_path = os.path.join(repo_root(), "tests", "snapshots", snap)
-        self.peer = SpaPeer(world.loop, world.net, self.snap_path, cls=model_spa_class() if model else None)
+        self.peer = SpaPeer(world.loop, world.net, self.snap_path, cls=model_spa_class() if model else None, ip=spa_ip or SPA_IP)
         world.peers.append(self.peer)
         fw = world.cfg.get("firmware")
         if fw:
@@ -79,14 +83,35 @@ class System:
         self.on_new_spa: List[Any] = []
         self.record_queues, self.record_calls, self.record_installs = record_queues, record_calls, record_installs
         cls = make_spaman_class()
-        kw = {"spa_address": SPA_IP, "spa_identifier": SPA_ID, "spa_name": SPA_NAME}
+        kw = {"spa_address": spa_ip or SPA_IP, "spa_identifier": SPA_ID, "spa_name": SPA_NAME}
         if man_kwargs is not None:
             kw = man_kwargs
+        if client_uuid is not None:
+            kw = dict(kw, client_uuid=client_uuid)
         self.man = cls(world, **kw)
+        # every task this manager ever creates (its own list is tidied periodically)
+        self.all_tasks: set = set()
+        _orig_add = self.man.add_task
+
+        def _add_task(coroutine, name_, key_, _orig=_orig_add):
+            out = _orig(coroutine, name_, key_)
+            if self.man._tasks:
+                self.all_tasks.add(self.man._tasks[-1])
+            return out
+        self.man.add_task = _add_task
         world.loop.endpoint_hooks.append(self._on_endpoint)
 
     # -- hooks -------------------------------------------------------------------------------------------
     def _on_endpoint(self, transport, protocol) -> None:
+        if self.exclusive:
+            import asyncio
+
+            try:
+                cur = asyncio.current_task()
+            except RuntimeError:
+                cur = None
+            if cur is None or (cur not in self.all_tasks and cur not in getattr(self.man, "_tasks", [])):
+                return          # opened by the other client of this process
         label = transport.label
         self.protocols[label] = protocol
         self.transports[label] = transport
